@@ -100,6 +100,11 @@ def gen_graph(r):
                         t = ["null", t, other] if t != "null" and other != "null" else ["null", t]
                     else:
                         t = ["null", t]
+                elif shape < 0.72 and isinstance(t, str) and t not in PRIMS:
+                    # a union that is DIRECTLY the items of an array / the values of a map (nested containers too)
+                    u_ = r.choice([["null", t], [t, "string"], ["long", t, "null"]])
+                    t = r.choice([{"type": "array", "items": u_}, {"type": "map", "values": u_},
+                                  {"type": "array", "items": {"type": "map", "values": u_}}, ["null", {"type": "array", "items": u_}]])
                 fields.append({"name": "f%d" % k, "type": t})
             d["fields"] = fields
         defs.append(d)
